@@ -277,7 +277,7 @@ Lemma rc_step : forall c' e name r,
   Inv c' e -> prefix_exp name = Some e -> length name = 2%nat ->
   (exists s, rc_loop c' ((e, name) :: r) = Some s /\ good c' s) \/
   (rc_loop c' ((e, name) :: r) = rc_loop c' r /\ Inv c' (e + 10) /\
-   100 <= rhe (10 * c') (2 ^ e)).
+   100 <= rhe (10 * c') (2 ^ e) /\ 1000 <= rhe c' (2 ^ e)).
 Proof.
   intros c' e name r HI He Hn. unfold Inv in HI.
   assert (Hb : 0 < 2 ^ e) by (apply N.neq_0_lt_0, N.pow_nonzero; lia).
@@ -316,14 +316,14 @@ Proof.
         -- change 10 with (9 + 1) at 1. apply rhe_ge; [exact Hb|]. lia.
         -- unfold close_to. fold b. pose proof (rhe_bounds c' b Hb) as R. fold m in R. lia.
     + right. assert (E2 : (m <? 1000) = false) by lia. rewrite E2.
-      split; [reflexivity|]. split; [|exact Hn100].
+      split; [reflexivity|]. split; [|split; [exact Hn100|exact Hm]].
       unfold Inv. rewrite N.pow_add_r. fold b. change (2 ^ 10) with 1024.
       assert (Hm' : (2 * 999 + 1) * b <= 2 * c').
       { apply rhe_ge_inv; [exact Hb|]. fold m. lia. }
       lia.
 Qed.
 
-Lemma rc_loop_good : forall c', 1000 <= c' -> c' <= 2 ^ 60 ->
+Lemma rc_loop_good_ext : forall c', 1000 <= c' -> c' <= 999 * 2 ^ 60 ->
   exists s, rc_loop c' prefixes = Some s /\ good c' s.
 Proof.
   intros c' Hlo Hhi. unfold prefixes.
@@ -339,10 +339,17 @@ Proof.
   destruct (rc_step c' 50 [80; 105] [(60, [69; 105])] I50 eq_refl eq_refl)
     as [G|(E & I60 & _)]; [exact G|]. rewrite E; clear E. change (50 + 10) with 60 in I60.
   destruct (rc_step c' 60 [69; 105] [] I60 eq_refl eq_refl)
-    as [G|(_ & _ & Hbad)]; [exact G|]. exfalso.
+    as [G|(_ & _ & _ & Hbad)]; [exact G|]. exfalso.
   assert (Hb : 0 < 2 ^ 60) by (apply N.neq_0_lt_0, N.pow_nonzero; lia).
-  assert (R : rhe (10 * c') (2 ^ 60) <= 10) by (apply rhe_le; [exact Hb|lia]).
+  assert (R : rhe c' (2 ^ 60) <= 999) by (apply rhe_le; [exact Hb|lia]).
   lia.
+Qed.
+
+Lemma rc_loop_good : forall c', 1000 <= c' -> c' <= 2 ^ 60 ->
+  exists s, rc_loop c' prefixes = Some s /\ good c' s.
+Proof.
+  intros c' Hlo Hhi. apply rc_loop_good_ext; [exact Hlo|].
+  assert (Hb : 0 < 2 ^ 60) by (apply N.neq_0_lt_0, N.pow_nonzero; lia). lia.
 Qed.
 
 Lemma readable_count_small : forall c, c < 1000 -> readable_count c = decimal c ++ [32].
